@@ -427,3 +427,59 @@ PROPS["C16"] = {
                 "blst point codec: G1Codec / G2Codec (hypotheses of roundtrip_under_codec, monitored via raw FFI oracle calls on every rt case)",
                 "num-bigint BigInt::from_signed_bytes_be / % / to_bytes_be modelled by hand (compared on every modr case)"],
 }
+
+
+PROPS["C10"] = {
+    "extractors": ["builder-consts", "constants"],
+    "harness": "C10",
+    "theorems": [
+        "ChiaModel.C10.builder_consts", "ChiaModel.C10.wrapper_weight",
+        "ChiaModel.C10.interned_all_or_nothing", "ChiaModel.C10.interned_rejected_no_effect", "ChiaModel.C10.interned_contents",
+        "ChiaModel.C10.interned_signature", "ChiaModel.C10.triangle", "ChiaModel.C10.interned_estimate_upper",
+        "ChiaModel.C10.interned_within_limit", "ChiaModel.C10.interned_exact_limit",
+        "ChiaModel.C10.compressed_all_or_nothing_full_false", "ChiaModel.C10.compressed_all_or_nothing_partial",
+        "ChiaModel.C10.compressed_contents", "ChiaModel.C10.compressed_signature", "ChiaModel.C10.compressed_within_limit",
+        "ChiaModel.C10.compressed_estimate_upper_full_false", "ChiaModel.C10.compressed_estimate_upper_partial",
+        "ChiaModel.C10.compressed_exact_limit",
+    ],
+    "gen_theorems": ["ChiaModel.C10.builder_consts", "ChiaModel.C10.wrapper_weight"],
+    "open": [
+        "consensus_cost: for truthful declared costs the cost finalize returns equals the cost Gn.native (run_block_generator2) charges on the finalized generator "
+        "(INTERNED_GENERATOR for the interned builder, byte cost for the compressed one) - needs the C04/C07 cost decomposition of the native path over a quoted "
+        "spend list; covered per case by comparing the returned cost with run_block_generator2 on the real bytes",
+        "compressed builder, 'a rejected attempt leaves the later output unchanged' at the level of BYTES and cost: depends on clvmr's TreeCache, which Serializer::restore "
+        "does not fully undo (known finding); in the model the serializer sizes are oracle values, so only the decoded contents / signature / accounting are theorems",
+    ],
+    "trivial": r"^((0,[01],\d+|E,\d+) )*\| ",
+    "level": "other",
+    "rule": "whole histories, one per line, for both builders alternately: 0-40 add_spend_bundles calls, each a batch of 0-3 bundles of 0-3 coin spends (13 puzzles incl. "
+            "identity puzzle and puzzles sharing a 180-byte atom for interning / back-reference gains, 10 solutions, 8 amount encodings, unique parents) with a real "
+            "signature tag (keys from_seed, tag 0 = identity), declared cost truthful (execution + condition cost from the real interpreter; then the returned cost must "
+            "equal what run_block_generator2 charges for the emitted bytes) or untruthful; ConsensusConstants cloned from TEST_CONSTANTS with cost_per_byte in {12000, 700, 1} "
+            "and max_block_cost_clvm chosen from the no-rejection cost trajectory so that an add lands on limit-1/limit/limit+1 (preferring adds of >= 6 000 000 so the "
+            "near-full guard lets them through), on the near-full boundary +-1, at a random point, or never; untruthful histories bend one declared cost to land on the "
+            "limit; malformed streams: declared costs 2^63, 2^64-k, 2^64-cost() (wrap in the release build), reveals that do not deserialize; fixed cases: empty history, "
+            "limits below the empty generator's cost, a rejected first attempt followed by a small one around 6 000 020..6 132 020. Per history the harness prints "
+            "(added, done), cost() after every call, finalize's decoded tree, signature equality against the aggregate of the accepted bundles' real signatures, returned "
+            "cost, consensus cost, contents equality, the metamorphic reruns without the rejected attempts, and evaluates the property relation on these results. For the "
+            "compressed builder a shadow clvmr Serializer fed the same trees supplies size-after-add / size-after-restore / final size as oracle values. "
+            "non-trivial = distinct history with at least one accepted attempt",
+    "level_text": "Proof for everything except the consensus-cost sentence (open; compared per case), hence level other. Interned builder, fully modelled: all-or-nothing "
+                  "(unconditional, wrapping arithmetic included), a rejected attempt changes nothing later (verdicts, cost(), finalize), contents and signature of finalize "
+                  "for every history, finite-set sub-additivity of interned_vbytes (direct proof over the duplicate-free list, no Mathlib) and from it: exact cost <= cost() "
+                  "<= limit in every reachable state, finalize's assert cannot fire, accepted iff true total <= limit (exactly on the limit is accepted). Compressed builder "
+                  "with the incremental serializer as oracle under SerContract (restore undoes the size, size monotone, closing costs <= 2 bytes): contents, signature, no "
+                  "panic and cost <= limit, exact limit; the two sentences that fail on the unchanged code (estimate below final cost on a builder whose serializer no "
+                  "attempt has reached; first rejected-after-serialization attempt changes cost()) are stated in full, refuted by kernel-checked witnesses replayed on the "
+                  "real code, and proved with the exact exclusion. Hypotheses where sums occur: limit < 2^62 and >= cost of the empty generator, declared <= 2^63.",
+    "level_note": "Trusted: Lean kernel + standard axioms; clvmr (Serializer/TreeCache, intern_tree, node_to_bytes_backrefs, node_from_bytes_backrefs, interpreter) is external: "
+                  "the serializer enters as per-add oracle sizes under SerContract (monitored on every add), intern_tree as the set of distinct subtrees (InternContract, "
+                  "monitored through cost() and the final cost on every case), decoding of the emitted bytes is checked on every case; model = code on the cases run. "
+                  "Four findings on the unchanged code are recorded in known_findings.txt (compressed builder's initial byte_cost 0; Serializer::restore not undoing the "
+                  "TreeCache so later bytes/cost differ; u64 wrap for declared costs >= 2^63 incl. a finalize panic; limits below the empty generator's cost).",
+    "technique": "Lean 4 state-machine models of both builders (u64-faithful), invariants over all histories, finite-set sub-additivity; incremental serializer as an oracle "
+                 "under a stated contract; differential correspondence on whole histories incl. metamorphic reruns and property predicate on implementation results",
+    "trusted": ["clvmr incremental Serializer: per-add sizes measured on a shadow instance fed the same trees (SerContract monitored: restore returns the size, size monotone, final bytes = size + <= 2)",
+                "clvmr intern_tree = set of distinct subtrees (InternContract): compared through cost() after every add and the exact final cost",
+                "release-build u64 wrapping (overflow-checks = false in the harness profile); with overflow checks the same inputs panic inside add_spend_bundles"],
+}
